@@ -60,24 +60,29 @@ def run(tier, seed):
                 "Y, or a user letter" % (nmax, nmax))
     basis_set = (R.strings(R.XYZ, 1, nmax) + " \\cup {b \\in " + R.strings(EXT, 1, 2)
                  + " : \\E q \\in 1..Len(b) : b[q] \\in UserLetters}")
-    hsel = R.tla_strings(herm_strings(rng, nmax, 2 if quick else 3))
-    selected = 'Len(b) < %d \\/ f # "herm" \\/ b \\in %s' % (nmax, hsel)
-    fam = R.family_defs(seed, nmax, counts=(2, 2, 2) if quick else (3, 3, 2))
+    hsel = R.tla_strings(herm_strings(rng, nmax, 2 if quick else 1))
+    selected = 'Len(b) < %d \\/ (Len(b) = %d /\\ (f # "herm" \\/ b \\in %s))' % (nmax, nmax, hsel)
+    fam = R.family_defs(seed, nmax, counts=(2, 2, 2), beyond=0 if quick else 1)
+    if not quick:
+        # sampled beyond the exhaustive bound: a few strings with 5 sites, generic inputs only
+        five = ["XYZYX", "YZXZY"] + ["".join(rng.choice("XYZ") for _ in range(5)) for _ in range(2)]
+        basis_set += " \\cup " + R.tla_strings(five)
+        selected += ' \\/ (Len(b) = 5 /\\ f = "gen")'
 
     # ---- 1. dictionary facts, dense structure (block definition = Row definition, unitarity)
     w = tlc.run("IndexWalk", constants={"NFull": 1, "NMaxRows": 1, "Chunk": 1},
                 defs={"Samples": "{}", "BasisSet": basis_set}, init="InitBasis", next="NextBasis",
-                invariants=["DictOK", "BasisOK", "ExportDense", "ExportDict"], timeout=1200)
+                invariants=["DictOK", "BasisOK", "ExportDense", "ExportDict"], timeout=1200, env=R.JAVA_ENV)
     chk.add_tlc(w, "Unitaries.tla via IndexWalk: DictionaryFacts, OneConvention, DenseUnitary")
     # ---- 2. the sweep
     defs = dict(fam)
     defs.update({"BasisSet": basis_set, "Selected(b, kd, f)": selected, "Exported(b, kd, f)": "TRUE"})
-    sw = tlc.run("KronSweep", defs=defs, invariants=SWEEP_INV, timeout=3000)
+    sw = tlc.run("KronSweep", defs=defs, invariants=SWEEP_INV, timeout=3000, env=R.JAVA_ENV)
     chk.add_tlc(sw, "KronSweep.tla: SweepRefinesDense, RhoRotated, Physical")
     # ---- 3. the expansion
     defs = dict(fam)
     defs.update({"BasisSet": basis_set, "Selected(b, kd, f)": selected, "ExportTerms": "TRUE"})
-    xp = tlc.run("Expand", defs=defs, invariants=EXPAND_INV, timeout=3000)
+    xp = tlc.run("Expand", defs=defs, invariants=EXPAND_INV, timeout=3000, env=R.JAVA_ENV)
     chk.add_tlc(xp, "Expand.tla: TermsShape, ExpandEqualsDense, PathsAgree")
     for res, name in ((w, "Unitaries"), (sw, "KronSweep"), (xp, "Expand")):
         if res.violation:
@@ -90,6 +95,8 @@ def run(tier, seed):
     tb.add_terms(xp.exports)
     if set(tb.dict) != {"X", "Y", "Z", "S", "R", "W"} or not tb.dense or not tb.terms:
         raise common.MachineryError("TLC exports incomplete")
+    if len(tb.terms) != sum(2 ** len(b) for b in tb.dense) or w.distinct != len(tb.terms):
+        raise common.MachineryError("TLC exports incomplete: %d strings, %d expansions" % (len(tb.dense), len(tb.terms)))
 
     # ---- 4. create_dict() contents and create_dict(**user)
     try:
@@ -108,6 +115,8 @@ def run(tier, seed):
         letters = c["basis"]
         try:
             info = rp.psi_case(c) if c["kind"] == "psi" else rp.rho_case(c)
+        except (common.MachineryError, tlc.TLCError):
+            raise
         except Exception as ex:                      # the library raised on a case inside the property's domain
             chk.violation("exception:explicit-%s:%s" % (c["kind"], type(ex).__name__),
                           dict(basis="".join(letters), fam=c["fam"], x=c["x"], error=repr(ex), where=traceback.format_exc()[-1500:]))
@@ -124,11 +133,15 @@ def run(tier, seed):
         sel = [b for b in strings if len(b) <= (3 if quick else 4)]
         if quick:
             sel = [b for b in sel if len(b) <= 2] + rng.sample([b for b in sel if len(b) == 3], 14)
-        elif skind == "density":
-            sel = [b for b in sel if len(b) <= 3] + rng.sample([b for b in sel if len(b) == 4], 30)
+        else:
+            if skind == "density":
+                sel = [b for b in sel if len(b) <= 3] + rng.sample([b for b in sel if len(b) == 4], 30)
+            sel = sel + [b for b in strings if len(b) == 5]
         for b in sel:
             try:
                 rp.model_case(skind, b, gen)
+            except (common.MachineryError, tlc.TLCError):
+                raise
             except Exception as ex:
                 chk.violation("exception:model:%s:%s" % (skind, type(ex).__name__),
                               dict(basis="".join(b), error=repr(ex), where=traceback.format_exc()[-1500:]))
